@@ -2,7 +2,7 @@
    Statements only; every proof is `exact <lemma>`.  The matcher is a parameter (any function from
    (rest of the line, NOTBOL) to group offsets); in the correspondence run it is /repo's rstr_find. *)
 From Coq Require Import List NArith ZArith Bool.
-From NV Require Import Bytes UcDefs SubstDefs SubstProps.
+From NV Require Import Bytes UcDefs UcSpec SubstDefs SubstProps SubstUtf8.
 Import ListNotations.
 Local Open Scope N_scope.
 
@@ -50,6 +50,27 @@ Theorem C14_escaped_byte : forall d rep2 ln offs, is_digit d = false ->
   expand (92 :: d :: rep2) ln offs = opt_app [d] (expand rep2 ln offs).
 Proof. exact escaped_byte. Qed.
 Print Assumptions C14_escaped_byte.
+
+(* text that was valid UTF-8 stays valid UTF-8: for a line chars cs (its newline is the last scalar),
+   a replacement chars rs and any matcher whose group offsets lie on character boundaries of the
+   rest it was given (wf_find), the rewritten line is valid *)
+Theorem C14_utf8 : forall find gflag cs rs new,
+  wf_find find -> Forall scalar cs -> Forall scalar rs ->
+  subst_line find (chars rs) gflag (chars cs) = Changed new -> valid new.
+Proof. exact utf8_preserved. Qed.
+Print Assumptions C14_utf8.
+
+(* the scan as it stands steps over a character only when the match ENDS at the start of the
+   searched rest: an empty match further right is found again by the next search and replaced
+   twice (finding KF-EMPTY-TWICE; matcher = empty match in front of the first "c") *)
+Definition find_c (ln : bytes) (nb : bool) : option (list grp) :=
+  (fix go (l : bytes) (i : Z) := match l with
+     | [] => None
+     | c :: l' => if c =? 99 then Some [(i, i)] else go l' (i + 1)%Z end) ln 0%Z.
+Theorem C14_empty_twice_refuted : exists line,
+  subst_line find_c [88] true line = Changed [98; 32; 88; 88; 99; 10] /\ line = [98; 32; 99; 10].
+Proof. eexists. split; [|reflexivity]. vm_compute. reflexivity. Qed.
+Print Assumptions C14_empty_twice_refuted.
 
 (* non-vacuity: with a matcher for the literal "a" (first occurrence in the rest), s/a/[\0\1]/g turns
    "baa\n" into "b[a][a]\n" through a chain of two segments, and "bcd\n" is left alone *)
